@@ -126,6 +126,18 @@ def run(ctx):
         raise InternalError("vacuity guard: no recorded tree reached three levels")
     # implementation level: the node structure after every insert / erase, compared with what BTreeI computes (set and multiset, ascending configurations)
     ie = [ie_history(rng, rng.choice((40, 120, 300)), rng.choice((6, 12, 30))) for _ in range(60 if quick else 1500)]
+    # one shortest history per (call kind, set of branches taken) of the transcribed case analysis, found by TLC (breadth-first over BTreeI, 4/4 slots)
+    bh, st = tlc_gen(ctx, SD, "Gen_BTreeI", "gen_btreei_run.cfg", workers=8, timeout=3000, xmx="16g",
+                     cfg_text=BT_CFG.replace("SPECIFICATION Spec", "SPECIFICATION GenSpec").replace("INVARIANT TreeInv\nINVARIANT Results\nVIEW View", "VIEW GView") % (4, 4, keyset(4), 4, "TRUE", "none", "CONSTRAINT Emit\n"))
+    ctx.cov["model_runs"].append(st)
+    seen_h = set()
+    for b in bh:
+        ln = " ".join(" ".join(str(x) for x in o) for o in b.get("h", []))
+        if ln and ln not in seen_h:
+            seen_h.add(ln)
+            ie.append(ln)
+    ctx.cov["tlc_branch_histories"] = len(seen_h)
+    ctx.cov["tlc_branch_kinds"] = len({(b.get("op"), tuple(sorted(b.get("how", [])))) for b in bh})
     tri = ctx.path("bti.ndjson")
     run_driver_sharded(ctx, exe, ie, tri, what="drv_btree(ie)", extra_args=["1", "01", "023589"], header="P")
     groups, cur = {}, None
